@@ -134,6 +134,7 @@ type RunResult struct {
 	Aborted     bool // time budget exceeded: nothing is claimed for this run
 	Covers      int
 	Notes       []string
+	UsedRand    bool // the code under test drew from math/rand
 }
 
 // Run executes a harness symbolically and discharges its obligations. A run in small-int mode
@@ -266,6 +267,7 @@ func runOnce(l *Loaded, cfg RunConfig) (res *RunResult) {
 	res.Funcs = ex.sortedFuncs()
 	res.Intrinsics = ex.Intrinsics
 	res.NInstr, res.NStates, res.NMerges, res.NFeas = ex.NInstr, ex.NStates, ex.NMerges, ex.NFeas
+	res.UsedRand = ex.nRand > 0 || ex.usedRandQueue
 	res.Observes = ex.Observes
 	if ex.sched != nil {
 		res.Threads = len(ex.sched.threads)
@@ -544,6 +546,12 @@ func (ex *Exec) discharge(res *RunResult, cfg RunConfig) {
 				canSplit := j.depth < len(splitVars)
 				if canSplit {
 					ms = firstMs
+				}
+				if j.kind == "reach" && ms > 10000 {
+					// vacuity twins only need *some* reachable instance per label: do not spend
+					// the full budget on one of them (unknown counts as not shown vacuous)
+					ms = 10000
+					canSplit = false
 				}
 				var results []Result
 				var model map[string]string
